@@ -51,3 +51,12 @@ MUTANTS += [
        "_NOFILL_BGPR = parse_xml(\"<p:bgPr %s><a:noFill/><a:effectLst/></p:bgPr>\" % nsdecls(\"a\", \"p\"))\n\n\nclass CT_BackgroundProperties(BaseOxmlElement):")],
      "R3.8 CT_Background.add_noFill_bgPr@_insert_bgPr"),
 ]
+
+MUTANTS += [
+    ("rgb-type-check-in-the-colour-object", "the RGBColor check moves from ColorFormat.rgb into _SRgbColor.rgb",
+     [("src/pptx/dml/color.py", "    def rgb(self, rgb):\n        if not isinstance(rgb, RGBColor):\n            raise ValueError(\"assigned value must be type RGBColor\")\n        # change to rgb color format if not already",
+       "    def rgb(self, rgb):\n        # change to rgb color format if not already"),
+      ("src/pptx/dml/color.py", "    def rgb(self, rgb):\n        self._srgbClr.val = str(rgb)",
+       "    def rgb(self, rgb):\n        if not isinstance(rgb, RGBColor):\n            raise TypeError(\"assigned value must be type RGBColor\")\n        self._srgbClr.val = str(rgb)")],
+     "R3.5c ColorFormat.rgb->_SRgbColor.rgb"),
+]
